@@ -509,13 +509,13 @@ class H:
         c = self.c
         k = c.occ(("iter",))
         c.event("iter", itv, k)
-        if not comp and c.may_raise(("iter", itv, k)):
+        if c.may_raise(("iter", itv, k)):
             raise Abrupt("raise", ("exc", "iter", itv, k))
         it = ("iterator", itv, k)
         n = 0
         while True:
             c.event("next", it, n)
-            r = c.o.choose(("next", it, n), 2 if comp else 3)
+            r = c.o.choose(("next", it, n), 3)
             if r == 2:
                 raise Abrupt("raise", ("exc", "next", it, n))
             if r == 0:
@@ -533,6 +533,98 @@ class H:
                     raise
         if orelse is not None:
             orelse()
+
+    # ---- comprehensions: lfor / sfor / dfor / gfor
+    def comprehension(self, kind, parts):
+        """Documented nested-loop semantics (docs/api.rst lfor): iteration clauses nest, :if guards the rest, :setv binds,
+        :do evaluates, the final form is appended for every surviving combination; `#* X` as final form contributes the
+        elements of X, dfor's `#** M` the items of M.  Without any clause the result is empty and the value form is not
+        evaluated (asserted by the repository's own tests)."""
+        from hv.pysem import do_yield, make_gen, force
+        c = self.c
+        parts = list(parts)
+        if kind == "DictComp":
+            if parts and isinstance(parts[-1], Expression) and head(parts[-1]) == "unpack-mapping":
+                final = ("dstar", parts.pop()[1])
+            else:
+                v = parts.pop()
+                k = parts.pop()
+                final = ("pair", k, v)
+        else:
+            f = parts.pop()
+            final = ("star", f[1]) if (isinstance(f, Expression) and head(f) == "unpack-iterable") else ("elt", f)
+        cl = parse_clauses(parts)
+        if not cl:
+            if kind == "GeneratorExp":
+                return make_gen(c, lambda: None)
+            return ("collect", kind)
+
+        def emit():
+            if final[0] == "elt":
+                do_yield(c, self.eval(final[1]))
+            elif final[0] == "pair":
+                kk, vv = self.args([final[1], final[2]])
+                do_yield(c, c.op(("build", "Tuple"), (kk, vv)))
+            else:
+                src = self.eval(final[1])
+                if final[0] == "dstar":
+                    src = c.op(("call",), c.op(("attr", "items"), src), (), ())
+                env = Env(self.env)
+                saved = self.env
+                self.env = env
+                env.vars["<item>"] = NONE
+                try:
+                    self.loop(src, Symbol("<item>", from_parser=True), lambda: do_yield(c, env.vars["<item>"]), None)
+                finally:
+                    self.env = saved
+
+        def run(i, first=None):
+            if i == len(cl):
+                emit()
+                return
+            k, a, b = cl[i]
+            if k == "for":
+                itv = first if (i == 0 and first is not None) else self.eval(b)
+                self.loop(itv, a, lambda: run(i + 1), None)
+            elif k == "if":
+                if c.truthy(self.eval(a)):
+                    run(i + 1)
+            elif k == "do":
+                self.eval(a)
+                run(i + 1)
+            else:
+                self.assign(a, self.eval(b))
+                run(i + 1)
+        if kind == "GeneratorExp":
+            # laziness: nothing runs when the generator is created - except that the outermost iterable may already be
+            # evaluated then (that is what a native Python generator expression does); either is accepted
+            eager = None
+            pos = len(c.trace)
+            if cl[0][0] == "for" and c.follow is not None and pos < len(c.follow) and c.follow[pos][0] != "gen-created":
+                eager = self.eval(cl[0][2])
+            env = self.env
+            def thunk():
+                saved = self.env
+                self.env = env
+                try:
+                    run(0, eager)
+                finally:
+                    self.env = saved
+            return make_gen(c, thunk)
+        run(0)
+        return ("collect", kind)
+
+    def f_lfor(self, form, *parts):
+        return self.comprehension("ListComp", parts)
+
+    def f_sfor(self, form, *parts):
+        return self.comprehension("SetComp", parts)
+
+    def f_gfor(self, form, *parts):
+        return self.comprehension("GeneratorExp", parts)
+
+    def f_dfor(self, form, *parts):
+        return self.comprehension("DictComp", parts)
 
     def f_break(self, form):
         raise Abrupt("break")
@@ -845,7 +937,7 @@ class Seg:
 
 
 def _pyname(h):
-    return {"match": "match", "eval-and-compile": "eval_and_compile", "eval-when-compile": "eval_when_compile", "cond": "cond", "when": "when", "fn": "fn", "for": "for", "do": "do", "if": "if", "and": "and", "or": "or", "not": "not", "bnot": "bnot", "get": "get", "cut": "cut",
+    return {"lfor": "lfor", "sfor": "sfor", "gfor": "gfor", "dfor": "dfor", "match": "match", "eval-and-compile": "eval_and_compile", "eval-when-compile": "eval_when_compile", "cond": "cond", "when": "when", "fn": "fn", "for": "for", "do": "do", "if": "if", "and": "and", "or": "or", "not": "not", "bnot": "bnot", "get": "get", "cut": "cut",
             "while": "while", "break": "break", "continue": "continue", "return": "return", "raise": "raise",
             "setv": "setv", "setx": "setx", "let": "let", "with": "with", "try": "try"}.get(h, "\0none")
 
@@ -856,5 +948,6 @@ def run_form(form, follow=None, expand=None, **ctxkw):
     def run(o):
         c = Ctx(o, follow=follow, **ctxkw)
         h = H(c, expand)
-        return outcome(c, lambda c: h.eval(form))
+        from hv.pysem import force
+        return outcome(c, lambda c: force(c, h.eval(form)))
     return run
